@@ -540,4 +540,15 @@ Section FieldSim.
       - eapply sfv_map_msg; eauto.
     Qed.
   End Field.
+
+  (* the same with the fuel of the call itself *)
+  Lemma run_sfv' B child depth F mid md ma idx f fa slots tp :
+    child_sim B child (S depth) -> (S (S B) <= F)%nat ->
+    get_msg sch mid = Some md -> nth_error ann mid = Some ma -> nth_error (m_fields md) idx = Some f -> nth_error (a_fields ma) idx = Some fa ->
+    shp mid (VMsg slots []) = true ->
+    R F "setFieldValue" [RvOpts; RvT; RvH (rp_root0 (HkMsg mid)); RvFd (FdField mid idx); RvInt (Z.of_nat depth)] [VMsg slots []] tp
+      = lift_slots (set_field_value code_variant o sch ann child depth md idx f fa slots tp).
+  Proof.
+    intros Hc HF Hm Ha Hf Hfa Hs. destruct F as [|F]; [lia|]. eapply run_sfv; eauto. lia.
+  Qed.
 End FieldSim.
